@@ -58,9 +58,17 @@ class SliceV(object):
 NORMAL, RETURN, RAISE, BREAK, CONTINUE = "normal", "return", "raise", "break", "continue"
 
 
+class Hyps(list):
+    """path condition plus `hard` facts (regular expressions, substring tests) that are only handed to the solver
+    when the goal itself talks about strings"""
+    hard = ()
+
+
 class Obligation(object):
     def __init__(self, name, hyps, goal, sig, kind, clause, props=(), extra=None):
-        self.name, self.hyps, self.goal, self.sig = name, list(hyps), goal, list(sig)
+        self.name, self.goal, self.sig = name, goal, list(sig)
+        self.hyps = Hyps(hyps)
+        self.hyps.hard = list(getattr(hyps, "hard", ()))
         self.kind, self.clause, self.props = kind, clause, tuple(props)
         self.extra = extra or {}
 
@@ -81,6 +89,15 @@ class State(object):
         self.written_params = set()
         self.notes = []
         self.tags = {}
+        self.hard = []             # facts kept out of feasibility queries (regular expressions ...), used by obligations
+
+    def hyps(self):
+        h = Hyps(self.pc)
+        h.hard = list(self.hard)
+        return h
+
+    def assume_hard(self, f):
+        self.hard.append(f)
 
     def copy(self):
         s = State.__new__(State)
@@ -98,6 +115,7 @@ class State(object):
         s.written_params = set(self.written_params)
         s.notes = list(self.notes)
         s.tags = dict(self.tags)
+        s.hard = list(self.hard)
         return s
 
     # --- heap -----------------------------------------------------------------------------------
@@ -171,10 +189,13 @@ class Executor(object):
         self.base_facts = V.ground_facts() + C.name_facts()
         self.loop_ordinals = {}
         self.dead_paths = []
+        import time as _t, os as _os
+        self.t_start = _t.time()
+        self.budget_s = int(_os.environ.get("VERIF_FN_BUDGET_S", "300"))
         self.isinst_cands = {}
-        for n in ast.walk(ast.Module(body=env.fn.body, type_ignores=[])):
-            if isinstance(n, (ast.For, ast.While)):
-                self.loop_ordinals[id(n)] = len(self.loop_ordinals)
+        loops_ = [n for n in ast.walk(ast.Module(body=env.fn.body, type_ignores=[])) if isinstance(n, (ast.For, ast.While))]
+        for n in sorted(loops_, key=lambda n: (n.lineno, n.col_offset)):      # ordinals follow the source order
+            self.loop_ordinals[id(n)] = len(self.loop_ordinals)
         self.cls_name = env.cls.__name__ if env.cls is not None else None
 
     # ------------------------------------------------------------------------------------------------
@@ -754,6 +775,14 @@ class Executor(object):
         if isinstance(a, Meta) or isinstance(b, Meta) or isinstance(a, BoundMeth) or isinstance(b, BoundMeth):
             if isinstance(a, Meta) and isinstance(b, Meta):
                 return z3.BoolVal(a.py is b.py)
+            for x, y in ((a, b), (b, a)):
+                if isinstance(y, Meta) and isinstance(y.py, type) and z3.is_expr(x):
+                    # `type(v) is bytes`: a type value against a class known statically
+                    tid = ops.BUILTIN_TYPE_IDS.get(y.py, None)
+                    tid = z3.IntVal(tid if tid is not None else C.cid(y.py))
+                    return z3.And(V.is_type(x), Val.tid(x) == tid)
+                if isinstance(y, Meta) and y.py is None and z3.is_expr(x):
+                    return V.is_none(x)
             raise Unsupported("identity test with a meta value")
         both_prim = z3.And(z3.Or(V.is_none(a), V.is_bool(a), V.is_obj(a), V.is_fun(a), V.is_type(a)),
                            z3.Or(V.is_none(b), V.is_bool(b), V.is_obj(b), V.is_fun(b), V.is_type(b)))
@@ -953,6 +982,9 @@ class Executor(object):
         return results
 
     def exec(self, st, stmt):
+        import time as _t
+        if _t.time() - self.t_start > self.budget_s:
+            raise Budget("symbolic execution exceeded %ds" % self.budget_s)
         m = getattr(self, "st_" + type(stmt).__name__, None)
         if m is None:
             raise Unsupported("statement %s at line %s" % (type(stmt).__name__, stmt.lineno))
